@@ -104,6 +104,13 @@ M = [
     ("C14", "consts-class-attribute", "dissect/cstruct/cstruct.py", "        self.consts = {}\n        self.lookups = {}", "        self.consts = cstruct._shared if hasattr(cstruct, '_shared') else setattr(cstruct, '_shared', {}) or cstruct._shared\n        self.lookups = {}"),
     ("C14", "typedefs-shared", "dissect/cstruct/cstruct.py", "        pointer = pointer or (\"uint64\" if sys.maxsize > 2**32 else \"uint32\")", "        if hasattr(cstruct, '_td'):\n            self.typedefs = cstruct._td\n        else:\n            cstruct._td = self.typedefs\n        pointer = pointer or (\"uint64\" if sys.maxsize > 2**32 else \"uint32\")"),
     ("C14", "kw-construct-shares", "dissect/cstruct/types/structure.py", "            kwargs = {**cls._mutable_defaults(len(args), kwargs), **kwargs}", "            pass"),
+    ("C11", "rebuild-ignores-nothing-but-skips-update", "dissect/cstruct/types/structure.py", "        object.__setattr__(self, \"_buf\", buf.getvalue())\n        self._update()", "        object.__setattr__(self, \"_buf\", buf.getvalue())\n        if len(self.__class__.__fields__) != 3:\n            self._update()"),
+    ("C11", "proxy-writes-target-only", "dissect/cstruct/types/structure.py", "        setattr(self.__target__, attr, value)\n        self.__union__._rebuild(self.__attr__)", "        setattr(self.__target__, attr, value)\n        if attr != \"f1\":\n            self.__union__._rebuild(self.__attr__)"),
+    ("C11", "union-size-rounded-down", "dissect/cstruct/types/structure.py", "            size += -size & (alignment - 1)\n\n        return size, alignment", "            size -= size % alignment if size % alignment and size > alignment else 0\n\n        return size, alignment"),
+    ("C11", "rebuild-from-zero-buffer", "dissect/cstruct/types/structure.py", "        if (cur_buf := getattr(self, \"_buf\", None)) is None:", "        if (cur_buf := getattr(self, \"_buf\", None)) is None or attr == \"f2\":"),
+    ("C11", "nested-proxy-innermost-attr", "dissect/cstruct/types/structure.py", "                    attr = member or field._name", "                    attr = field._name"),
+    ("C11", "setattr-rebuild-skipped-for-arrays", "dissect/cstruct/types/structure.py", "        if attr in self.__class__.lookup:\n            # Fields of an anonymous", "        if attr in self.__class__.lookup and not isinstance(value, list):\n            # Fields of an anonymous"),
+    ("C11", "union-read-short-extent", "dissect/cstruct/types/structure.py", "            buf = stream.read(cls.size)\n            if len(buf) != cls.size:", "            buf = stream.read(cls.size if cls.size != 6 else 5) + (b\"\\x00\" if cls.size == 6 else b\"\")\n            if len(buf) != cls.size:"),
     ("C06", "be-mask-off", "dissect/cstruct/bitbuffer.py", "v >>= self._remaining - bits", "v >>= max(0, self._remaining - bits - (1 if bits == 7 else 0))"),
     ("C06", "writer-shift", "dissect/cstruct/bitbuffer.py", "self._buffer |= data << (self._type.size * 8 - self._remaining)", "self._buffer |= data << (self._type.size * 8 - self._remaining) if bits != 5 else data << bits"),
     ("C06", "straddle-lt", "dissect/cstruct/types/structure.py", "                if bits_remaining < 0:\n                    raise ValueError", "                if bits_remaining < -1:\n                    raise ValueError"),
